@@ -1,7 +1,7 @@
 #!/bin/bash
 # confirm a seeded change in its scratch worktree: tests pass with it, demo fails with it and passes without it
-# usage: confirm_seed.sh C11 m1
-P=$1; M=$2; WT=/tmp/wt/$P; SD=/tmp/seed/$P/$M
+# usage: confirm_seed.sh C11 m1 [kept-name e.g. C11_m3]   (P may carry a wave suffix, e.g. C11b: worktree /tmp/wt/C11b, seeds /tmp/seed/C11b)
+P=$1; M=$2; KEEP=${3:-${P}_$M}; WT=/tmp/wt/$P; SD=/tmp/seed/$P/$M
 cd $WT || exit 2
 git checkout -q -- . ; git status --short | grep -v '^??' | head -3
 git apply $SD/patch.diff || { echo "APPLY FAILED"; exit 2; }
@@ -11,7 +11,7 @@ git checkout -q -- .
 RQ_ROOT=$WT PYTHONPATH=$WT timeout 600 /venv/bin/python $SD/demo.py > /tmp/seed/$P/$M/demo_without.out 2>&1; RC0=$?
 echo "$P/$M tests: $T | demo with change rc=$RC1 | demo clean rc=$RC0"
 if [ "$RC1" = "1" ] && [ "$RC0" = "0" ] && echo "$T" | grep -q "64 passed"; then
-  D=/verif/seeded/${P}_$M; mkdir -p $D; cp $SD/patch.diff $SD/demo.py $D/
+  D=/verif/seeded/$KEEP; mkdir -p $D; cp $SD/patch.diff $SD/demo.py $D/
   /venv/bin/python - "$SD/meta.json" "$D/meta.json" "$T" <<'PY'
 import json,sys
 m=json.load(open(sys.argv[1])); m["confirmed"]={"tests_with_change":sys.argv[3],"demo_with_change_exit":1,"demo_clean_exit":0,"how":"tools/confirm_seed.sh in a scratch worktree of /repo"}
